@@ -13,7 +13,13 @@
    NOT PROVED: that scipy's least_squares reaches the zero residual within its evaluation budget
    (C16_full's convergence clause) — validated by sampling against ground truth (harness/props/c16.py). *)
 From Coq Require Import ZArith List Reals.
-From CF Require Import C16.Model C16.Proofs.
+From CF Require Import C16.Model.
+From CF Require Import C16.Proofs.
+From CF Require Import C16.Proofs_unique.
+From CF Require Import C16.Heap.
+From CF Require Import C16.Heap_proofs.
+From CF Require Import C16.Gen_Code.
+From CF Require Import C16.Gen_Tie.
 Import ListNotations.
 Open Scope R_scope.
 
@@ -87,6 +93,19 @@ Theorem C16_align_exact_if_converged : forall opt origin x_axis plane bs res T,
 Proof. exact align_exact_if_converged. Qed.
 Print Assumptions C16_align_exact_if_converged.
 
+(* exactness GIVEN convergence, against ground truth: if the inputs are the view through a misalignment M of a ground
+   truth (origin at 0, x-axis samples on +X, plane samples in Z=0 with one off the X axis, first base station above the
+   floor) and the optimiser's answer has zero residual — whichever of the four mirror solutions it is — then align
+   returns T = M^-1 exactly and every base station gets its ground-truth pose back.  (No bound on the misalignment is
+   needed for this part; the 30 degree bound of the property only matters for the optimiser's convergence.) *)
+Theorem C16_converged_answer_recovers_ground_truth : forall opt M origin x_axis plane bs,
+  misaligned_view M origin x_axis plane bs ->
+  all_zero (residual Rops (pose_from_params (opt origin x_axis plane)) origin x_axis plane) ->
+  exists res T, align opt origin x_axis plane bs = Some (res, T) /\ rtp Rops T M = pid /\
+    forall i k P, nth_error bs i = Some (k, rtp Rops M P) -> nth_error res i = Some (k, P).
+Proof. exact align_recovers_ground_truth. Qed.
+Print Assumptions C16_converged_answer_recovers_ground_truth.
+
 (* _scale_system: every translation times the one factor, rotations untouched, keys/order/length kept *)
 Theorem C16_scale_uniform : forall bs cf s bs' cf' s',
   scale_system Rops bs cf s = (bs', cf', s') ->
@@ -118,3 +137,42 @@ Theorem C16_scale_factor_correct_diagonals : forall expected obs,
   mean_diagonal (scale_obs (diagonals_factor expected obs) obs) = expected.
 Proof. exact diagonals_factor_correct. Qed.
 Print Assumptions C16_scale_factor_correct_diagonals.
+
+(* Neither operation modifies its inputs (heap model, C16/Heap.v): _scale_system = shallow copies, then on each copy
+   `_t_vec` is rebound to a new array.  Every array and every object that existed before is unchanged, the results are
+   fresh objects, every pre-existing Pose denotes what it denoted before, and the i-th copy denotes the scaled i-th input.
+   (A is the type of array values, mul the multiplication by the factor.) *)
+Theorem C16_inputs_unchanged_scale : forall (A : Type) (mul : A -> A) (h h' : heap A) os cs,
+  wf h -> Forall (fun o => (o < length (objs h))%nat) os ->
+  scale_system_h mul h os = Some (h', cs) ->
+  preserves h h' /\
+  length cs = length os /\ Forall (fun c => (length (objs h) <= c)%nat) cs /\
+  (forall o, (o < length (objs h))%nat -> deref h' o = deref h o) /\
+  (forall i o c, nth_error os i = Some o -> nth_error cs i = Some c ->
+     deref h' c = option_map (fun rt => (fst rt, mul (snd rt))) (deref h o)).
+Proof. exact scale_system_h_spec. Qed.
+Print Assumptions C16_inputs_unchanged_scale.
+
+(* align builds every result with Pose(R_matrix=R, t_vec=t): two new arrays and a new object; nothing old changes *)
+Theorem C16_inputs_unchanged_align : forall (A : Type) (h : heap A) r t,
+  let '(h', o) := new_pose h r t in
+  preserves h h' /\ o = length (objs h) /\ deref h' o = Some (r, t) /\
+  (wf h -> wf h' /\ forall p, (p < length (objs h))%nat -> deref h' p = deref h p).
+Proof. exact new_pose_spec. Qed.
+Print Assumptions C16_inputs_unchanged_align.
+
+(* Tie to the current sources: the functions the translator generated from cflib/localization/*.py on THIS run
+   (C16/Gen_Code.v) are equal to the model functions used in all theorems above. *)
+Theorem C16_generated_code_is_model :
+  (forall T p, gen_rotate_translate Rops T p = rt Rops T p) /\
+  (forall T P, gen_rotate_translate_pose Rops T P = rtp Rops T P) /\
+  (forall P s, gen_scale Rops P s = pscale Rops P s) /\
+  (forall raw x_axis bs, gen_de_flip Rops raw x_axis bs = deflip Rops raw x_axis bs) /\
+  (forall T origin x_axis plane, gen_residual Rops T origin x_axis plane = residual Rops T origin x_axis plane) /\
+  (forall T bs, gen_align_loop Rops T bs = align_apply Rops T bs) /\
+  (forall c bs cf, gen_calc_intersection_point Rops c bs cf = intersection_point Rops c bs cf) /\
+  (forall bs cf s, gen_scale_system Rops bs cf s = scale_system Rops bs cf s) /\
+  (forall c1 c2 bs cf, gen_calc_intersection_distance c1 c2 bs cf = intersection_distance c1 c2 bs cf) /\
+  (forall bs cf e a, gen_scale_fixed_point bs cf e a = scale_fixed_point bs cf e a).
+Proof. exact generated_code_is_model. Qed.
+Print Assumptions C16_generated_code_is_model.
